@@ -381,6 +381,10 @@ func mergeRoots(
 
 			newTree, err := tree.Clone(ctx)
 			if err != nil {
+				if !skipUnreadable {
+					// named versions were asked for: never return fewer
+					return nil, nil, 0, fmt.Errorf("clone for merging %v: %w", key, err)
+				}
 				if cfg.LogFunc != nil && skipUnreadable {
 					cfg.LogFunc(fmt.Sprintf("skipping merge un-cloneable tree %v: %v", key, err))
 				}
